@@ -44,6 +44,8 @@ pub fn take_last_error() -> Option<String> {
 }
 
 struct HCtx {
+    /// use the `*_streaming_*` entry points for content insertion
+    streaming: bool,
     reg: u16,
     ops: Vec<Op>,
     end_ops: Option<Vec<Op>>,
@@ -67,6 +69,49 @@ fn p(s: &str) -> (*const c_char, size_t) {
     (s.as_ptr() as *const c_char, s.len())
 }
 
+// streaming handlers: the same pieces as `drive::streamer` (an empty piece, the first half as a
+// string, the rest as UTF-8 chunks split after its first byte)
+struct StreamPayload {
+    s: String,
+    html: bool,
+}
+
+unsafe extern "C" fn stream_write(sink: &mut lolhtml::streaming::CStreamingHandlerSink<'_>, ud: *mut c_void) -> c_int {
+    use lolhtml::streaming::{lol_html_streaming_sink_write_str, lol_html_streaming_sink_write_utf8_chunk};
+    let pl = unsafe { &*(ud as *const StreamPayload) };
+    let s = &pl.s;
+    let mid = (0..=s.len() / 2).rev().find(|i| s.is_char_boundary(*i)).unwrap_or(0);
+    unsafe {
+        let mut rc = lol_html_streaming_sink_write_str(sink, s.as_ptr() as *const c_char, 0, pl.html);
+        rc |= lol_html_streaming_sink_write_str(sink, s.as_ptr() as *const c_char, mid, pl.html);
+        let rest = &s.as_bytes()[mid..];
+        if rest.len() >= 2 {
+            rc |= lol_html_streaming_sink_write_utf8_chunk(sink, rest.as_ptr() as *const c_char, 1, pl.html);
+            rc |= lol_html_streaming_sink_write_utf8_chunk(sink, rest[1..].as_ptr() as *const c_char, rest.len() - 1, pl.html);
+        } else {
+            rc |= lol_html_streaming_sink_write_utf8_chunk(sink, rest.as_ptr() as *const c_char, rest.len(), pl.html);
+        }
+        rc
+    }
+}
+
+unsafe extern "C" fn stream_drop(ud: *mut c_void) {
+    drop(unsafe { Box::from_raw(ud as *mut StreamPayload) });
+}
+
+/// Calls `f` with a stack-allocated streaming handler for `s` (the callee copies the struct).
+unsafe fn with_stream<R>(s: &str, html: bool, f: impl FnOnce(*mut lolhtml::CStreamingHandler) -> R) -> R {
+    let mut h = lolhtml::CStreamingHandler {
+        user_data: Box::into_raw(Box::new(StreamPayload { s: s.to_string(), html })) as *mut c_void,
+        write_all_callback: Some(stream_write),
+        drop_callback: Some(stream_drop),
+        reserved: std::ptr::null_mut(),
+    };
+    let r = f(&mut h);
+    std::mem::forget(h);
+    r
+}
+
 unsafe extern "C" fn end_tag_handler(t: *mut EndTag, ud: *mut c_void) -> RewriterDirective {
     let ctx = unsafe { &*(ud as *const HCtx) };
     unsafe {
@@ -87,6 +132,15 @@ unsafe extern "C" fn end_tag_handler(t: *mut EndTag, ud: *mut c_void) -> Rewrite
         }
         for op in ctx.end_ops.as_deref().unwrap_or(&[]) {
             match op {
+                Op::Before(s, h) if ctx.streaming => {
+                    with_stream(s, *h, |w| lol_html_end_tag_streaming_before(t, w));
+                }
+                Op::After(s, h) if ctx.streaming => {
+                    with_stream(s, *h, |w| lol_html_end_tag_streaming_after(t, w));
+                }
+                Op::Replace(s, h) if ctx.streaming => {
+                    with_stream(s, *h, |w| lol_html_end_tag_streaming_replace(t, w));
+                }
                 Op::Before(s, h) => {
                     let (d, l) = p(s);
                     lol_html_end_tag_before(t, d, l, *h);
@@ -160,6 +214,24 @@ unsafe extern "C" fn element_handler(el: *mut Element, ud: *mut c_void) -> Rewri
                 }};
             }
             match op {
+                Op::Before(s, h) if ctx.streaming => {
+                    with_stream(s, *h, |w| lol_html_element_streaming_before(el, w));
+                }
+                Op::After(s, h) if ctx.streaming => {
+                    with_stream(s, *h, |w| lol_html_element_streaming_after(el, w));
+                }
+                Op::Prepend(s, h) if ctx.streaming => {
+                    with_stream(s, *h, |w| lol_html_element_streaming_prepend(el, w));
+                }
+                Op::Append(s, h) if ctx.streaming => {
+                    with_stream(s, *h, |w| lol_html_element_streaming_append(el, w));
+                }
+                Op::Replace(s, h) if ctx.streaming => {
+                    with_stream(s, *h, |w| lol_html_element_streaming_replace(el, w));
+                }
+                Op::SetInner(s, h) if ctx.streaming => {
+                    with_stream(s, *h, |w| lol_html_element_streaming_set_inner_content(el, w));
+                }
                 Op::Before(s, h) => content!(lol_html_element_before, s, h),
                 Op::After(s, h) => content!(lol_html_element_after, s, h),
                 Op::Prepend(s, h) => content!(lol_html_element_prepend, s, h),
@@ -291,6 +363,15 @@ unsafe extern "C" fn text_handler(t: *mut TextChunk, ud: *mut c_void) -> Rewrite
         if !ctx.last_only || last {
             for op in &ctx.ops {
                 match op {
+                    Op::Before(s, h) if ctx.streaming => {
+                        with_stream(s, *h, |w| lol_html_text_chunk_streaming_before(t, w));
+                    }
+                    Op::After(s, h) if ctx.streaming => {
+                        with_stream(s, *h, |w| lol_html_text_chunk_streaming_after(t, w));
+                    }
+                    Op::Replace(s, h) if ctx.streaming => {
+                        with_stream(s, *h, |w| lol_html_text_chunk_streaming_replace(t, w));
+                    }
                     Op::Before(s, h) => {
                         let (d, l) = p(s);
                         lol_html_text_chunk_before(t, d, l, *h);
@@ -406,7 +487,7 @@ pub fn run_c(cfg: &Cfg, chunks: &[&[u8]], do_end: bool, order: FreeOrder) -> CRu
         let mut ctxs: Vec<Box<HCtx>> = vec![];
         let mut selectors = vec![];
         for (idx, h) in cfg.handlers.iter().enumerate() {
-            let ctx = Box::new(HCtx { reg: idx as u16, ops: h.ops.clone(), end_ops: h.end_tag_ops.clone(), log: h.log, last_only: h.last_only, fail_at: cfg.fail_at, shared: shared.clone() });
+            let ctx = Box::new(HCtx { streaming: h.streaming, reg: idx as u16, ops: h.ops.clone(), end_ops: h.end_tag_ops.clone(), log: h.log, last_only: h.last_only, fail_at: cfg.fail_at, shared: shared.clone() });
             let ud = &*ctx as *const HCtx as *mut c_void;
             ctxs.push(ctx);
             let null = std::ptr::null_mut();
